@@ -2,7 +2,8 @@
 
 Decided by the theorems of lean/IbicusModel/Props/C04.lean (per-window transfer functions of the eight debiasers with
 tas-like settings and their lifts to every window mode).  The model is tied to /repo on every run by
-  * tier A: GEN=["Debiasers"] (LinearScaling / DeltaChange kernels regenerated from the source, `Gen = Model` proved),
+  * tier A: GEN=["Debiasers", "Config"] (LinearScaling / DeltaChange kernels and ISIMIP's has_* properties regenerated from
+    the source, `Gen = Model` proved; Props/C04Gen.lean: the model's has_* are the generated ones, all false for -+inf),
   * tier B: harness/debiasers_corr.correspondence (seven debiasers) and harness/isimip_corr.correspondence (ISIMIP,
     unbounded configurations) — real per-window code vs the Lean drivers on the same dyadic inputs,
 and the property itself is tested on the real code (the failing-input search): apply_location on (obs, H, F) and on
@@ -20,8 +21,8 @@ from harness import isimip_corr as ICORR
 from harness import probes
 
 PROP = "C04"
-TARGETS = ["IbicusModel.Props.C04"]
-GEN = ["Debiasers"]
+TARGETS = ["IbicusModel.Props.C04", "IbicusModel.Props.C04Gen"]
+GEN = ["Debiasers", "Config"]
 
 # the unit maps of the brief: a in {1, 9/5, 5/9, 2.5} x b in {0, -273.15, 32, 1e3} (identity excluded)
 MAPS = [(a, b) for a in (1.0, 9 / 5, 5 / 9, 2.5) for b in (0.0, -273.15, 32.0, 1e3) if not (a == 1.0 and b == 0.0)]
